@@ -88,6 +88,12 @@ func (c RawConfiguration) handleAsyncCall(ctx context.Context, fut *Async, state
 		replies = make(map[uint32]protoreflect.ProtoMessage)
 	)
 
+	if state.expectedReplies == 0 {
+		// no node was targeted (the per node function skipped all of them)
+		fut.reply, fut.err = resp, QuorumCallError{cause: Incomplete, errors: errs, replies: len(replies)}
+		return
+	}
+
 	for {
 		select {
 		case r := <-state.replyChan:
